@@ -27,7 +27,7 @@ def required(tier):
     b = {f'prior:{k}': 5 for k in PRIOR}
     b.update({f'bound:{k}': 5 for k in set(work_sig.BOUND_KINDS)})
     b.update({f'flags:{k}': 1 for k in range(16)})
-    b.update({'sequence>=2': 20, 'outside-columns-exist': 50, 'cadence-injection-state': 50})
+    b.update({'sequence>=2': 20, 'outside-columns-exist': 50, 'cadence-injection-state': 50, 'derived-sibling-watched': 100})
     return {'buckets': b, 'counters': {'pixels_outside_checked': 10000, 'state_digests': 100}, 'checks': 1000, 'nontrivial': 50}
 
 
@@ -125,6 +125,12 @@ def run_case(c, R):
     start = fr.data.astype(np.float64).copy()
     rets = []
     changed = False
+    # a frame derived from this one BEFORE the injections must be left alone by them ("nothing else" includes other frames)
+    sib = None
+    if g['fchans'] >= 2 and c['_idx'] % 2 == 0:
+        R.bucket('derived-sibling-watched')
+        sib = fr.get_slice(0, max(1, g['fchans'] // 2))
+        sib_before = sib.data.copy()
     for q, s in enumerate(c['sigs']):
         R.bucket('bound:' + s['bound_kind'])
         o = s['opts']
@@ -150,6 +156,12 @@ def run_case(c, R):
                 R.check(not bad.any(), 'bounded-differs-from-unbounded-restricted', nbad=int(bad.sum()), cols=[lo, hi],
                         maxerr=float(err.max()))
                 R.count('bounded_vs_unbounded_pixels', int(dec.sum()))
+    if sib is not None:
+        R.check(np.array_equal(sib.data, sib_before), 'injection-changed-a-frame-derived-earlier', changed=int((sib.data != sib_before).sum()))
+        before_parent = fr.data.copy()
+        sib.add_constant_signal(f_start=sib.get_frequency(0), drift_rate=0.0, level=7.0, width=3 * sib.df, f_profile_type='gaussian')
+        R.check(np.array_equal(fr.data, before_parent), 'injection-into-derived-frame-changed-its-parent',
+                changed=int((fr.data != before_parent).sum()))
     if len(c['sigs']) >= 2:
         R.bucket('sequence>=2')
         k = len(c['sigs'])
